@@ -29,6 +29,8 @@ type entry struct {
 	max int
 	// extra hostile inputs.
 	extra [][]byte
+	// must: hostile inputs that are never thinned out by max.
+	must [][]byte
 	// serial: the closure shares an object that is not promised to be safe
 	// for concurrent use (a Prio3 instance holds a XOF state), so inputs are
 	// presented one at a time.
@@ -110,6 +112,7 @@ func runGroup(t *testing.T, group string) {
 			}
 			inputs = keep
 		}
+		inputs = append(inputs, e.must...)
 		var panics int64
 		par := lib.Par
 		if e.serial {
@@ -144,21 +147,21 @@ func runGroup(t *testing.T, group string) {
 // likely to take an untested branch.
 var magic = func() [][]byte {
 	hexes := []string{
-		"1000000000000000000000000000000014def9dea2f79cd65812631a5cf5d3ed",                                                 // ed25519 / ristretto255 order
-		"7fffffffffffffffffffffffffffffffffffffffffffffffffffffffffffffed",                                                 // 2^255-19
-		"3fffffffffffffffffffffffffffffffffffffffffffffffffffffff7cca23e9c44edb49aed63690216cc2728dc58f552378c292ab5844f3", // ed448 order
-		"fffffffffffffffffffffffffffffffffffffffffffffffffffffffeffffffffffffffffffffffffffffffffffffffffffffffffffffffff", // 2^448-2^224-1
-		"ffffffff00000000ffffffffffffffffbce6faada7179e84f3b9cac2fc632551",                                                 // P-256 n
-		"ffffffff00000001000000000000000000000000ffffffffffffffffffffffff",                                                 // P-256 p
-		"ffffffffffffffffffffffffffffffffffffffffffffffffc7634d81f4372ddf581a0db248b0a77aecec196accc52973",                 // P-384 n
-		"fffffffffffffffffffffffffffffffffffffffffffffffffffffffffffffffeffffffff0000000000000000ffffffff",                 // P-384 p
+		"1000000000000000000000000000000014def9dea2f79cd65812631a5cf5d3ed",                                                                       // ed25519 / ristretto255 order
+		"7fffffffffffffffffffffffffffffffffffffffffffffffffffffffffffffed",                                                                       // 2^255-19
+		"3fffffffffffffffffffffffffffffffffffffffffffffffffffffff7cca23e9c44edb49aed63690216cc2728dc58f552378c292ab5844f3",                       // ed448 order
+		"fffffffffffffffffffffffffffffffffffffffffffffffffffffffeffffffffffffffffffffffffffffffffffffffffffffffffffffffff",                       // 2^448-2^224-1
+		"ffffffff00000000ffffffffffffffffbce6faada7179e84f3b9cac2fc632551",                                                                       // P-256 n
+		"ffffffff00000001000000000000000000000000ffffffffffffffffffffffff",                                                                       // P-256 p
+		"ffffffffffffffffffffffffffffffffffffffffffffffffc7634d81f4372ddf581a0db248b0a77aecec196accc52973",                                       // P-384 n
+		"fffffffffffffffffffffffffffffffffffffffffffffffffffffffffffffffeffffffff0000000000000000ffffffff",                                       // P-384 p
 		"01fffffffffffffffffffffffffffffffffffffffffffffffffffffffffffffffffffa51868783bf2f966b7fcc0148f709a5d03bb5c9b8899c47aebb6fb71e91386409", // P-521 n
 		"01ffffffffffffffffffffffffffffffffffffffffffffffffffffffffffffffffffffffffffffffffffffffffffffffffffffffffffffffffffffffffffffffffffff", // P-521 p
-		"73eda753299d7d483339d80809a1d80553bda402fffe5bfeffffffff00000001",                                                 // BLS12-381 r
-		"1a0111ea397fe69a4b1ba7b6434bacd764774b84f38512bf6730d2a0f6b0f6241eabfffeb153ffffb9feffffffffaaab",                 // BLS12-381 p
-		"7fffffffffffffffffffffffffffffff",                                                                                 // 2^127-1
-		"ffffffff00000001",                                                                                                 // prio3 Fp64
-		"ffffffffffffffe40000000000000001",                                                                                 // prio3 Fp128
+		"73eda753299d7d483339d80809a1d80553bda402fffe5bfeffffffff00000001",                                                                       // BLS12-381 r
+		"1a0111ea397fe69a4b1ba7b6434bacd764774b84f38512bf6730d2a0f6b0f6241eabfffeb153ffffb9feffffffffaaab",                                       // BLS12-381 p
+		"7fffffffffffffffffffffffffffffff", // 2^127-1
+		"ffffffff00000001",                 // prio3 Fp64
+		"ffffffffffffffe40000000000000001", // prio3 Fp128
 	}
 	var out [][]byte
 	for _, h := range hexes {
